@@ -2300,23 +2300,16 @@ class Mesher:
 
         return connect, elementTags
 
-    def __Get_partitioned_groupElems(
+    def __Get_rank_elements(
         self,
         gmshId: int,
-        connect: np.ndarray,
         gmshElements: np.ndarray,
-        coordinates: np.ndarray,
-        dict_rank_nodes: dict[int, set[int]],
-    ) -> list["_GroupElem"]:
-        """Splits the elements of `gmshId` into one `_GroupElem` per partition. The partition count comes from `dict_rank_nodes`, which is not tied to MPI_SIZE — see `_Mesh_Get_Meshes`."""
-
-        Nproc = len(dict_rank_nodes)
+        Nproc: int,
+    ) -> dict[int, set[int]]:
+        """Returns, for each partition, the rows of `connect` (elements of `gmshId`) it owns."""
 
         # get type's dim
         dim = gmsh.model.mesh.getElementProperties(gmshId)[1]
-
-        # get elements data
-        Ne = connect.shape[0]
 
         # gmshElements is the pre-partition snapshot of element tags aligned with
         # connect rows; map_elements gives the connect row for each tag.
@@ -2341,27 +2334,36 @@ class Mesher:
             for rank in ranks:
                 dict_rank_elements[rank].update(idx)
 
+        return dict_rank_elements
+
+    def __Get_partitioned_groupElems(
+        self,
+        gmshId: int,
+        connect: np.ndarray,
+        coordinates: np.ndarray,
+        dict_rank_nodes: dict[int, set[int]],
+        dict_rank_elements: dict[int, set[int]],
+    ) -> list["_GroupElem"]:
+        """Splits the elements of `gmshId` into one `_GroupElem` per partition. The partition count comes from `dict_rank_nodes`, which is not tied to MPI_SIZE — see `_Mesh_Get_Meshes`.
+
+        `dict_rank_nodes` must hold the node ownership of *every* element type: a rank needs, as ghosts, the elements of this type touching any node it owns, including the nodes it owns through elements of another type (mixed meshes).
+        """
+
+        Nproc = len(dict_rank_nodes)
+
+        # get elements data
+        Ne = connect.shape[0]
+
         list_rank_groupElem: list["_GroupElem"] = []
 
-        Nn: int = 0
         elements = np.arange(Ne, dtype=int)
 
         for rank in range(Nproc):
-            # get owned elements and their connectivity
+            # get owned elements
             idx_r = np.array(list(dict_rank_elements[rank]), dtype=int)
-            connect_r = connect[idx_r]
-            # get (non-ghost) nodes from owned elements only
-            # Build set union directly instead of loop
-            otherRankNodes = set().union(
-                *(dict_rank_nodes[r] for r in range(Nproc) if r != rank)
-            )
-            # add (non-ghost) nodes
-            nodes = set(connect_r.ravel()) - otherRankNodes
-            dict_rank_nodes[rank].update(nodes)
-            Nn += len(nodes)
+            # nodes owned by this rank (whatever the element type they were claimed through)
+            ownedNodes_arr = np.array(list(dict_rank_nodes[rank]), dtype=int)
             # find ghost elements
-            # Convert to array once and reuse
-            nodes_arr = np.array(list(nodes), dtype=int)
             ghost_idx = set()
             for other_rank in range(Nproc):
                 if other_rank == rank:
@@ -2373,7 +2375,7 @@ class Mesher:
                 other_idx_arr = np.array(list(other_idx), dtype=int)
                 other_connect = connect[other_idx_arr]
                 # Use isin (not deprecated)
-                mask = np.isin(other_connect, nodes_arr).any(axis=1)
+                mask = np.isin(other_connect, ownedNodes_arr).any(axis=1)
                 ghost_idx.update(other_idx_arr[mask])
             # build full connectivity: owned elements + ghost elements
             # Use np.unique for combined sorting (faster than sorted(set))
@@ -2381,6 +2383,8 @@ class Mesher:
                 np.concatenate([idx_r, np.array(list(ghost_idx), dtype=int)])
             )
             connect_r_full = connect[all_idx]
+            # (non-ghost) nodes of the group: its nodes owned by this rank
+            nodes_arr = np.intersect1d(connect_r_full.ravel(), ownedNodes_arr)
             # create groupElem with owned + ghost elements
             groupElem = GroupElemFactory._Create(gmshId, connect_r_full, coordinates)
             groupElem._Set_partitioned_data(
@@ -2431,6 +2435,23 @@ class Mesher:
             gmsh.model.mesh.partition(Nproc)
             tic.Tac("Mesh", "gmsh.model.mesh.partition", self.__verbosity)
             dict_rank_nodes: dict[int, set[int]] = {r: set() for r in range(Nproc)}
+            # Node ownership is settled for every element type before any group is built: nodes are
+            # claimed rank by rank and type by type, a node going to the first rank that reaches it.
+            dict_type_rank_elements: dict[int, dict[int, set[int]]] = {}
+            for gmshId in elementTypes:
+                connect, elementTags = dict_connect[gmshId]
+                dict_rank_elements = self.__Get_rank_elements(
+                    gmshId, elementTags, Nproc
+                )
+                dict_type_rank_elements[gmshId] = dict_rank_elements
+                for rank in range(Nproc):
+                    idx_r = np.array(list(dict_rank_elements[rank]), dtype=int)
+                    otherRankNodes = set().union(
+                        *(dict_rank_nodes[r] for r in range(Nproc) if r != rank)
+                    )
+                    dict_rank_nodes[rank].update(
+                        set(connect[idx_r].ravel()) - otherRankNodes
+                    )
 
         list_dict_groupElem: list[dict[ElemType, "_GroupElem"]] = [
             {} for _ in range(Nproc)
@@ -2441,7 +2462,11 @@ class Mesher:
 
             if isPartitioned:
                 groupElems = self.__Get_partitioned_groupElems(
-                    gmshId, connect, elementTags, coordinates, dict_rank_nodes
+                    gmshId,
+                    connect,
+                    coordinates,
+                    dict_rank_nodes,
+                    dict_type_rank_elements[gmshId],
                 )
             else:
                 # Note that each group of elements contains all coordinates.
